@@ -195,7 +195,7 @@ type scenario struct {
 
 func (r *round) active() bool { return atomic.LoadInt32(&r.activated) == 1 }
 
-var eventClasses = []string{"plain", "tip-at-template", "tip-before", "plain", "stop-before", "plain", "same-height", "plain", "tip-not-better", "plain",
+var eventClasses = []string{"plain", "tip-at-template", "tip-before", "plain", "stop-before", "sign-refused", "same-height", "plain", "tip-not-better", "plain",
 	"tip-after", "plain", "stop-after", "stop-in-walk", "same-height-rejected", "tip-before", "plain", "stop-before", "same-height-restart", "stop-in-walk"}
 var setClasses = []string{"all-valid", "some-unbound", "all-valid", "some-error", "none-valid", "mixed", "poisoned"}
 var targetClasses = []string{"off0", "off1", "boundary", "off2", "never", "off4", "second-never", "off1", "off0"}
@@ -402,6 +402,10 @@ func genScenario(e *env, root *vh.Rng, idx int) *scenario {
 		// the miner starts its round on it: the round must be given up at once
 		rp := mk(0, height, setClass, tClass, -1, 3)
 		p.Rounds = []roundP{rp}
+	case "sign-refused":
+		// the keeper refuses every signature (wallet locked, space deleted between the proof query and the signing step):
+		// whatever wins, nothing may be submitted
+		p.Rounds = []roundP{mk(0, height, setClass, tClass, -1, 3)}
 	case "tip-before", "stop-before":
 		rp := mk(0, height, setClass, tClass, -1, 3)
 		if rp.TClass == "off0" { // the eligible slot must lie ahead of now: offset >= 1 and template slot + offset >= now slot + 4
